@@ -38,13 +38,30 @@ def main():
         print('HARNESS-ERROR: cannot import yalafi from %s: %r' % (runner.REPO, e))
         sys.exit(core.EXIT_HARNESS)
     if args.replay:
-        sys.exit(core.do_replay(mod, args.pid, args.replay))
+        try:
+            code = core.do_replay(mod, args.pid, args.replay)
+        except BaseException:
+            import traceback
+            traceback.print_exc()
+            print('HARNESS-ERROR: replay failed inside the machinery')
+            code = core.EXIT_HARNESS
+        sys.exit(code)
     seed = int(os.environ.get('VERIF_SEED') or 1)
     budget = float(os.environ.get('VERIF_BUDGET_S') or BUDGET[args.tier])
     try:
         code = mod.run(seed, args.tier, budget)
+    except BaseException:
+        # a crash of the machinery must never look like a verdict (an uncaught
+        # Python exception would end the process with status 1)
+        import traceback
+        traceback.print_exc()
+        print('HARNESS-ERROR: the check itself failed, no verdict')
+        code = core.EXIT_HARNESS
     finally:
-        core.shutdown_pool()
+        try:
+            core.shutdown_pool()
+        except BaseException:
+            pass
     sys.exit(code)
 
 
